@@ -252,6 +252,7 @@ def check_c01(prop, tier, seed):
     plan.append(('opt', programs.opt_basic() + programs.opt_prepare() + programs.opt_mix3(), dict(pb=2, max_exec=2000 if q else 30000)))
     plan.append(('opt', programs.cross3('opt', ('PRV', 'GTS', 'GTX'), ('X', 'XX', 'DNG', 'XSV'), ('S', 'SIX', 'X'), tag='o3r'),
                  dict(mode='random', max_exec=150 if q else 1500)))
+    plan.append(('opt', programs.opt_quiesce(), dict(pb=1 if q else 2, max_exec=150 if q else 3000)))
     res = lock_abs_check(prop, tier, seed, ['CkCompat'], plan)
     res['assumptions'] = LOCK_ASSUME
     return res
@@ -264,6 +265,7 @@ def check_c02(prop, tier, seed):
                                             (programs.handover, dict(pb=1 if q else 2, max_exec=1500 if q else 10000)),
                                             (programs.twolocks, dict(pb=2))])
     plan.append(('opt', programs.opt_basic() + programs.opt_prepare() + programs.opt_version(), dict(pb=2, max_exec=2000 if q else 30000)))
+    plan.append(('opt', programs.opt_quiesce(), dict(pb=1 if q else 2, max_exec=150 if q else 3000)))
     res = lock_abs_check(prop, tier, seed, ['CkProgress'], plan)
     res['assumptions'] = LOCK_ASSUME + ['every generated client program releases every grant and acquires locks in a fixed order, '
                                         'so a run that stops with a pending call is a lost hand-off or deadlock of the lock itself']
@@ -277,6 +279,7 @@ def check_c07(prop, tier, seed):
                      extra=[(programs.guards, dict(pb=2, max_exec=3000 if q else 30000)),
                             (programs.handover, dict(pb=1 if q else 2, max_exec=1500 if q else 10000))])
     plan.append(('opt', programs.opt_basic() + programs.opt_prepare() + programs.opt_version(), dict(pb=2, max_exec=2000 if q else 30000)))
+    plan.append(('opt', programs.opt_quiesce(), dict(pb=1 if q else 2, max_exec=150 if q else 3000)))
     res = lock_abs_check(prop, tier, seed, ['CkGuards', 'CkProgress', 'CkCompat'], plan)
     res['assumptions'] = LOCK_ASSUME + ['a grant that is never released, or released twice, shows up as a guard boolean that '
                                         'disagrees with ownership or as a final exclusive probe that cannot be granted']
@@ -308,7 +311,8 @@ def opt_plan(tier, seed):
             ('opt', programs.cross3('opt', ('GTX', 'GTI', 'GTS', 'PRV', 'GVV'), ('X', 'DNG', 'XSV', 'UPG', 'XX'), ('S', 'SIX', 'X', 'XSV')),
              dict(pb=1 if q else 2, max_exec=600 if q else 20000)),
             ('opt', programs.opt_basic() + programs.opt_version() + programs.opt_prepare() + programs.opt_mix3(),
-             dict(pb=2 if q else 3, max_exec=3000 if q else 40000))]
+             dict(pb=2 if q else 3, max_exec=3000 if q else 40000)),
+            ('opt', programs.opt_quiesce(), dict(pb=1 if q else 2, max_exec=150 if q else 3000))]
 
 
 @register('C03')
@@ -337,6 +341,7 @@ def check_c13(prop, tier, seed):
             ('opt', programs.cross3('opt', ('PRV',), ('X', 'XX', 'DNG'), ('S', 'SIX', 'PRV'), tag='pr3b'), dict(pb=2, max_exec=2500 if q else 30000)),
             ('opt', programs.cross3('opt', ('PRV',), ('X', 'XX', 'DNG', 'UPG'), ('S', 'SIX', 'X', 'PRV'), tag='pr3r'),
              dict(mode='random', max_exec=150 if q else 1500)),
+            ('opt', programs.opt_quiesce(), dict(pb=1 if q else 2, max_exec=150 if q else 3000)),
             ('opt', programs.opt_prepare() + programs.opt_mix3(), dict(pb=2 if q else 3, max_exec=3000 if q else 40000))]
     res = lock_abs_check(prop, tier, seed, ['CkPrepare', 'CkOptimistic', 'CkGuards', 'CkProgress', 'CkCompat'], plan)
     res['assumptions'] = LOCK_ASSUME + ['the harness builds the library with CPP_UTILITY_SPINLOCK_RETRY_NUM=1, so PrepareRead makes '
